@@ -315,8 +315,11 @@ func VxC09_Vec() {
 		vx.Assert(r1[i] == 2*xs[i]+1 && r2[i] == r1[i], "Map and Vectorize apply f elementwise, in order")
 	}
 	// Concat
-	a, b := vx.Floats("a", vx.Choose("la", 0, 2)), vx.Floats("b", vx.Choose("lb", 0, 2))
-	vx.Freeze(a, b)
+	// the first argument is a prefix of a larger buffer: spare capacity must not be written into
+	la := vx.Choose("la", 0, 2)
+	abuf := vx.Floats("a", la+4)
+	a, b := abuf[:la], vx.Floats("b", vx.Choose("lb", 0, 2))
+	vx.Freeze(abuf, b)
 	c := vec.Concat(a, xs, b)
 	vx.Assert(len(c) == len(a)+m+len(b), "Concat has the summed length")
 	for i := range c {
